@@ -21,8 +21,8 @@ Leaf(sym) == <<Alt(sym, One)>>
 AL(items, cr, m) == [items |-> items, credit |-> cr, hasMsg |-> m]
 Prob(g, form, ans, atext, T) == [g |-> g, form |-> form, ans |-> ans, atext |-> atext, T |-> T]
 
-RECURSIVE SetToSeqR(_)
-SetToSeqR(S) == IF S = {} THEN <<>> ELSE LET x == CHOOSE x \in S : TRUE IN <<x>> \o SetToSeqR(S \ {x})
+SX == INSTANCE SequencesExt          \* (named instance: SequencesExt!Contains would clash with Text!Contains)
+SetToSeqR(S) == SX!SetToSeq(S)
 SeqsOfLen(A, n) == [1..n -> A]
 SeqsBetween(A, lo, hi) == UNION {SeqsOfLen(A, n) : n \in lo..hi}
 Range(f) == {f[x] : x \in DOMAIN f}
